@@ -253,6 +253,15 @@ func CrashBase() string {
 // The recorder keeps the mutating calls below <base>/<c>/ between the two markers.
 func Mark(kind string, c, op int) {
 	os.Stat(fmt.Sprintf("/VERIF_MARK/%s/%d/%d", kind, c, op))
+	if kind == "B" {
+		// the recorder checks that it saw as many bracketed operations as the harness issued
+		if p := os.Getenv("VERIF_CRASH_MARKS_FILE"); p != "" {
+			if f, err := os.OpenFile(p, os.O_APPEND|os.O_CREATE|os.O_WRONLY, 0644); err == nil {
+				f.Write([]byte{'.'})
+				f.Close()
+			}
+		}
+	}
 }
 
 // LoadPlans reads the recorder's output: lines `<case> <op> <call token>…`.
@@ -288,7 +297,9 @@ func LoadPlans(path string) (map[[2]int][]FSCall, error) {
 	return out, sc.Err()
 }
 
-// RemovalSegments returns the maximal runs [s,e) of consecutive `unlink` calls inside one directory.
+// RemovalSegments returns the maximal runs [s,e) of consecutive `unlink` calls inside one directory that
+// are followed by the `rmdir` of that directory: the entries of an os.RemoveAll, visited in an order the file
+// system decides. (Other runs of unlinks, e.g. files removed one by one in os.ReadDir order, keep their order.)
 func RemovalSegments(plan []FSCall) [][2]int {
 	var out [][2]int
 	i := 0
@@ -302,7 +313,9 @@ func RemovalSegments(plan []FSCall) [][2]int {
 		for j < len(plan) && plan[j].Kind == "unlink" && filepath.Dir(plan[j].A) == d {
 			j++
 		}
-		out = append(out, [2]int{i, j})
+		if j < len(plan) && plan[j].Kind == "rmdir" && plan[j].A == d {
+			out = append(out, [2]int{i, j})
+		}
 		i = j
 	}
 	return out
